@@ -64,9 +64,61 @@ Example c03_body_nonvacuous :
   wfl cx 1 ex.
 Proof. cbn. repeat split; try discriminate; try (apply Nat.ltb_lt; reflexivity); auto. Qed.
 
+(* (5) locals: the renumbering of locals done by emit_locals ("local compaction") is a bijection between the function's arguments
+   and used locals and the emitted local indices that fixes the parameters, preserves the type at every slot, leaves no gap, and
+   produces a canonical declaration (one run per type, in ValType order) *)
+From WV Require Import Model.Locals Proofs.Order Proofs.Locals3.
+From Coq Require Import Permutation Sorted.
+Theorem c03_locals_renaming_consistent :
+  forall (ty : N -> valty) (args used : list N) (decls : list (N * valty)) (lmap : list (N * N)),
+         NoDup args ->
+         emit_locals ty args used = (decls, lmap) ->
+         let n := length (map ty args ++ expand decls) in
+         (forall l : N, In l args \/ In l used -> exists j : N, lookup l lmap = Some j /\ j < N.of_nat n) /\
+         (forall l j : N, lookup l lmap = Some j -> In l args \/ In l used) /\
+         (forall l1 l2 j : N, lookup l1 lmap = Some j -> lookup l2 lmap = Some j -> l1 = l2) /\
+         (forall j : N, j < N.of_nat n -> exists l : N, (In l args \/ In l used) /\ lookup l lmap = Some j) /\
+         (forall (k : nat) (a : N), nth_error args k = Some a -> lookup a lmap = Some (N.of_nat k)) /\
+         (forall l j : N,
+          lookup l lmap = Some j -> nth_error (map ty args ++ expand decls) (N.to_nat j) = Some (ty l)).
+Proof. exact locals_renaming_consistent. Qed.
+
+Theorem c03_locals_params_fixed :
+  forall (ty : N -> valty) (args used : list N) (decls : list (N * valty)) (lmap : list (N * N)),
+         NoDup args ->
+         emit_locals ty args used = (decls, lmap) ->
+         forall (k : nat) (a : N), nth_error args k = Some a -> lookup a lmap = Some (N.of_nat k).
+Proof. exact locals_params_fixed. Qed.
+
+Theorem c03_locals_types_preserved :
+  forall (ty : N -> valty) (args used : list N) (decls : list (N * valty)) (lmap : list (N * N)),
+         emit_locals ty args used = (decls, lmap) ->
+         forall l j : N,
+         lookup l lmap = Some j -> nth_error (map ty args ++ expand decls) (N.to_nat j) = Some (ty l).
+Proof. exact locals_types_preserved_all. Qed.
+
+Theorem c03_locals_decls_canonical :
+  forall (ty : N -> valty) (args used : list N) (decls : list (N * valty)) (lmap : list (N * N)),
+         emit_locals ty args used = (decls, lmap) ->
+         forall d : list N,
+         NoDup d ->
+         (forall x : N, In x d <-> In x used /\ ~ In x args) ->
+         decls = canonical_decls (map ty d) /\
+         StronglySorted decl_lt decls /\
+         NoDup (map snd decls) /\
+         Forall (fun dc : N * valty => fst dc <> 0) decls /\
+         (forall (c : N) (t : valty), In (c, t) decls <-> c = N.of_nat (count_ty t (map ty d)) /\ c <> 0) /\
+         (forall t : valty, In t (map snd decls) <-> (exists l : N, In l used /\ ~ In l args /\ ty l = t)).
+Proof. exact locals_decls_canonical. Qed.
+
+
 Print Assumptions c03_codec.
 Print Assumptions c03_big_offset_refuted.
 Print Assumptions c03_body.
 Print Assumptions c03_nf_op.
 Print Assumptions c03_dead_dropped.
 Print Assumptions c03_no_nop.
+Print Assumptions c03_locals_renaming_consistent.
+Print Assumptions c03_locals_params_fixed.
+Print Assumptions c03_locals_types_preserved.
+Print Assumptions c03_locals_decls_canonical.
